@@ -2,7 +2,7 @@
   Lemmas for C11 with the nodes that carry the entries, part 2: for every update and every call,
   a view that grows gets its new entry carried by the node the update gives (`grow_all`,
   `call_grow`); hence the (key, node) list of every view of every node after a call is the
-  reference's (`call_nodes`), and along histories (`history_nodes`).
+  reference's (`call_nodes`).
 -/
 import XotModel.Lemmas.FmapNodes
 
@@ -302,26 +302,6 @@ theorem call_nodes {f : Forest} {F : Fam} (hi : f.Inv) (hF : Agree f F) (c : Map
     (c.given (nfamOf f) f.next) (fun p hp => call_grow hi hF c hok hp)
   rw [absKN_fst, s.agree x k] at this
   exact this
-
-/-! ### Histories -/
-
-theorem history_nodes : ∀ (cs : List MapCall) (f : Forest) (F : Fam), f.Inv → Agree f F →
-    (runCalls f cs).2.2 = true →
-    (runCalls f cs).2.1.map (·.2) = specRetsN f F (nfamOf f) cs ∧
-    nfamOf (runCalls f cs).1 = specCallsN f F (nfamOf f) cs
-  | [], f, F => fun _ _ _ => ⟨rfl, rfl⟩
-  | c :: cs, f, F => by
-    intro hi hF hok
-    simp only [runCalls, Bool.and_eq_true] at hok
-    obtain ⟨_, hret, s⟩ := call_step hi hF c hok.1
-    have hN : nfamOf (c.run f).1 = c.specN (c.spec F) (nfamOf f) f.next := by
-      funext x k
-      exact call_nodes hi hF c hok.1 x k
-    obtain ⟨h1, h2⟩ := history_nodes cs (c.run f).1 (c.spec F) s.inv s.agree hok.2
-    rw [hN] at h1 h2
-    refine ⟨?_, h2⟩
-    simp only [runCalls, specRetsN, List.map_cons]
-    rw [hret, h1, nodeView_eq]
 
 end Fmap
 end XotModel
